@@ -15,7 +15,7 @@ func init() {
 		Title: "Every emitted value serialises to valid JSON that reads back equal",
 		Decided: "the library encoder and the command's encoder, two hand-maintained copies, are the same function modulo decoration: encode's type switch, encodeFloat64, encodeString (pass-through predicate, escape table, \\u00XX fallback, U+FFFD for invalid UTF-8), encodeArray and encodeObject normalise to identical statement sequences once colour, indentation and flushing are removed (R-C12-sib); the removed statements write only bytes from {space, tab, newline}, SGR sequences built by newColor (ESC [ … m), or flush (R-C12-decor); " +
 			"inside each package all JSON text comes from that package's encoder: tojson/tostring/@json/@text/join/previews reach (*encoder).encode, and there is no encoding/json marshalling or fmt formatting of JSON values (R-C12-single); both encode switches cover the nine supported dynamic types (R-C12-enum); object keys are emitted in native string order (R-C11-keys).",
-		NotCovered: "validity of the produced text as such (the escape table's correctness is value-level; what is decided is that both copies agree and nothing else produces JSON); the indentation arithmetic (block-doubling writer, depth x unit) and the 8 KiB flush threshold; YAML output and input beyond what reaches the third-party encoder (no *big.Int, no Go map: R-C12-yamlbig, R-C11-yamlkeys) and what leaves the decoder (number spellings: R-C10-foreignnumber); tojson|fromjson as an inverse.",
+		NotCovered: "validity of the produced text as such (the escape table's correctness is value-level; what is decided is that both copies agree and nothing else produces JSON); the indentation arithmetic (block-doubling writer, depth x unit) and the 8 KiB flush threshold; YAML output and input beyond what reaches the third-party encoder (no *big.Int, no Go map, no unquoted string starting with a tab, no bare SetString: R-C12-yamlbig, R-C11-yamlkeys, R-C12-yamltab, R-C12-yamlsetstring) and what leaves the decoder (number spellings: R-C10-foreignnumber); tojson|fromjson as an inverse.",
 	})
 	reg(&Rule{ID: "R-C12-sib", Props: []string{"C12", "C10", "C13"}, Floor: 5,
 		Doc: "encode, encodeFloat64, encodeString, encodeArray, encodeObject of encoder.go and cli/encoder.go normalise to identical bodies modulo colour/indent/flush",
